@@ -309,7 +309,7 @@ class ModelVisitor:
                 occurs[item] = occurs[item.oid] = 0
                 self.items = self.iter_group()
                 self.match = False
-                return min_occurs > high_occurs
+                return min_occurs > high_occurs and not item.is_emptiable()
 
             elif self.group.model == 'all':
                 return False  # 'all' models can only be checked at the end
